@@ -168,4 +168,3 @@ func verifyFn(P *Program, fn *ssa.Function, ct *Contract, opt solveOpts) *FnResu
 	return res
 }
 
-func cmdCheck(args []string) {}
